@@ -178,6 +178,41 @@ func (h *hist) verifyEnt(en *ent) {
 				h.corrupt(en, k, "X=%d Y=%d, expected X=%d Y=%d", c.X, c.Y, pl.x, pl.y)
 			}
 		case kTag:
+		case kStrOnly:
+			c := (*StrOnly)(ptr)
+			h.liveChecks++
+			if pl == nil {
+				if c.S != "" || unsafe.StringData(c.S) != nil || c.N != 0 {
+					h.zeroViolated(en, k, "StrOnly added without value is not zero (len=%d N=%d)", len(c.S), c.N)
+				}
+			} else {
+				h.object(en, k, pl.aux)
+				ok := len(c.S) == pl.strN && c.N == pl.x
+				for i := 0; ok && i < len(c.S); i++ {
+					if c.S[i] != strByte(pl.aux, i) {
+						ok = false
+					}
+				}
+				if !ok {
+					h.corrupt(en, k, "string-only component changed: len=%d %q N=%d, expected len=%d N=%d", len(c.S), c.S, c.N, pl.strN, pl.x)
+				}
+			}
+		case kBig:
+			c := (*BigComp)(ptr)
+			h.payload(en, k, "P", c.P, pid(pl, 0))
+			var q int64
+			if pl != nil {
+				q = pl.pids[1]
+			}
+			h.payload(en, k, "Q", c.Q, q)
+			h.liveChecks++
+			if pl == nil {
+				if c.Pad != [40]int64{} || c.Tail != [3]int64{} {
+					h.zeroViolated(en, k, "plain fields of BigComp not zero (Pad[0]=%d Tail=%v)", c.Pad[0], c.Tail)
+				}
+			} else if c.Pad[0] != pl.x || c.Pad[39] != pl.x+39 || c.Tail != [3]int64{pl.x, ^pl.x, pl.x >> 3} {
+				h.corrupt(en, k, "plain fields of BigComp changed: Pad[0]=%d Pad[39]=%d Tail=%v, expected x=%d", c.Pad[0], c.Pad[39], c.Tail, pl.x)
+			}
 		}
 	}
 	if en.has[kChild] {
